@@ -701,6 +701,21 @@ where
     }
 }
 
+/// Verification hook: read-only view of the two-ended in-memory buffer.
+#[cfg(feature = "verif")]
+impl<MF, CC: ChunkCreator> Sorter<MF, CC> {
+    /// Returns `(buffer capacity, bytes of keys and values held, number of entries held,
+    /// number of chunks held)`.
+    pub fn verif_buffer_state(&self) -> (usize, usize, usize, usize) {
+        (
+            self.entries.buffer.len(),
+            self.entries.entries_len,
+            self.entries.bounds_count,
+            self.chunks.len(),
+        )
+    }
+}
+
 impl<MF, CC: ChunkCreator> Debug for Sorter<MF, CC> {
     fn fmt(&self, f: &mut std::fmt::Formatter<'_>) -> std::fmt::Result {
         f.debug_struct("Sorter")
